@@ -102,7 +102,7 @@ def stores(ctx, committed_only=True):
     return out
 
 
-def t3_legal_write(rearm=False, allow=None):
+def t3_legal_write(rearm=False, allow=None, pre=None):
     """T3: every stored stage / task status is a legal transition from the status that was loaded."""
     def check(ctx):
         I = ctx.I
@@ -114,6 +114,8 @@ def t3_legal_write(rearm=False, allow=None):
                 continue  # object not loaded from the store on this path (new synthetic stage): an insert
             cur, new = ld["status"].t, snap["status"].t
             legal = can_transition(I, cur, new)
+            if pre is not None:
+                g = z3.And(g, pre(ctx, e))
             if allow is not None:
                 legal = z3.Or(legal, allow(ctx, e, cur, new))
             goals.append((f"store{n}.stage", z3.Implies(g, legal)))
